@@ -1171,6 +1171,7 @@ func (fa *funcAnalysis) checkCall(c *ast.CallExpr) {
 			fa.noteWorkBlock(c.Args[i], sig.Params().At(j), c.Args[j])
 			continue
 		}
+		fa.checkVectorAsMatrix(k, base, sig.Params().At(j), c.Args[j], c, i)
 		fa.res.Count("call_pairs", 1)
 		fa.checkUnits("call", k, c.Args[j], c.Args[j].Pos())
 		fa.checkVectorWalk(k, sig.Params().At(j), c.Args[j])
@@ -1478,7 +1479,8 @@ func Run(cfg core.Config, scope core.Scope) *core.Result {
 		"STRIDE.start: where a routine computes a negative-increment start offset for a vector, every strided index of that vector is anchored at it",
 		"STRIDE.contig: the Data of a strided vector is copied or ranged over as a contiguous slice only under a test of its Inc",
 		"STRIDE.walk: a matrix operand passed as a vector is walked with a constant increment or one derived from its own leading dimension",
-		"STRIDE.pair: at every call or struct literal a (slice, stride) pair refers to one operand")
+		"STRIDE.pair: at every call or struct literal a (slice, stride) pair refers to one operand",
+		"STRIDE.veclda: a contiguous vector parameter (no ld/inc of its own) handed to a callee's matrix parameter as a single column (cols == 1) is not given a bare problem dimension as its leading dimension")
 	res.Configs = append(res.Configs, cfg.String())
 	pkgs, err := core.Load(cfg, patterns...)
 	if err != nil {
@@ -1614,4 +1616,58 @@ func analyseFunc(res *core.Result, pkg *packages.Package, fd *ast.FuncDecl) {
 		res.Sample(map[string]any{"rule": "STRIDE", "func": fa.name, "obligations": res.Obligations - ob,
 			"unit_typed_locals": nunit, "flags": len(res.Findings) - before})
 	}
+}
+
+// checkVectorAsMatrix implements STRIDE.veclda: a plain vector parameter of
+// the current routine (a slice parameter with no ld*/inc* of its own, hence
+// contiguous: d, e, tau, ...) that is handed to a callee's matrix parameter is
+// a single row or a single column of contiguous elements, so the leading
+// dimension passed with it is a constant (row-major: a column vector has
+// ld 1) or at least not a bare dimension of the problem: with ld = n the
+// callee would address every n-th element of a contiguous vector.
+func (fa *funcAnalysis) checkVectorAsMatrix(owner string, base ast.Expr, strideParam *types.Var, strideArg ast.Expr, c *ast.CallExpr, sliceIdx int) {
+	if !strings.HasPrefix(strings.ToLower(strideParam.Name()), "ld") || !strings.HasPrefix(owner, "param:") {
+		return
+	}
+	for _, k := range fa.strideOwner {
+		if k == owner {
+			return // the operand has a stride of its own
+		}
+	}
+	id, ok := base.(*ast.Ident)
+	if !ok {
+		return
+	}
+	fa.res.Obligations++
+	fa.res.Count("plain_vectors_passed_as_matrices", 1)
+	// the LAPACK convention "..., rows, cols, a, lda": only a single column
+	// (cols is the constant 1) makes the leading dimension the element step
+	if sliceIdx < 1 {
+		return
+	}
+	if tv, ok := fa.info.Types[c.Args[sliceIdx-1]]; !ok || tv.Value == nil || tv.Value.ExactString() != "1" {
+		return
+	}
+	fa.res.Count("plain_vectors_passed_as_single_columns", 1)
+	if tv, ok := fa.info.Types[strideArg]; ok && tv.Value != nil {
+		return
+	}
+	// max(1, k) style arguments and anything that is not a bare variable are
+	// left alone; a bare integer variable that is not a stride is a dimension
+	aid, ok := ast.Unparen(strideArg).(*ast.Ident)
+	if !ok {
+		return
+	}
+	name := strings.ToLower(aid.Name)
+	if strings.HasPrefix(name, "ld") || strings.HasPrefix(name, "inc") {
+		return
+	}
+	fa.res.Add(core.Finding{
+		Rule: "STRIDE.veclda",
+		Key:  fmt.Sprintf("STRIDE.veclda|%s|%s ld=%s", fa.name, id.Name, aid.Name),
+		Pos:  core.Pos(strideArg.Pos()),
+		Func: fa.name,
+		Msg: fmt.Sprintf("%s is a contiguous vector (it has no leading dimension of its own) but is passed as a one-column matrix with leading dimension %s, a problem dimension: in row-major storage the callee then addresses every %s-th element (a column vector has leading dimension 1)",
+			id.Name, aid.Name, aid.Name),
+	})
 }
